@@ -453,7 +453,13 @@ def idx_r3(ctx):
                                   "exchange key is looked up by the instrument's own exchange in the indexed exchanges",
                                   sites=[t["sp"]], got=render(tm), key="exchange-lookup")
                 # nested asset lookup closure
-                for cd in ctx.closures_of(cb.defn):
+                # (the closures the mapping closure itself builds - found through the closure aggregates in its calls, so that
+                #  it does not matter whether the body sits in the closure or in a private helper the closure calls)
+                nested = sorted(set(x[1][len("closure:"):] for _, _, tm_ in cb.real_calls() for x in mir.subterms(tm_)
+                                    if x[0] == "agg" and x[1].startswith("closure:")))
+                for cd in nested:
+                    if cd not in ctx.facts.bodies:
+                        continue
                     ccb = ctx.ibody(cd)
                     for bi, t, tm in ccb.real_calls():
                         if mir.short(tm[1]) == "index::find_asset_by_exchange_and_name_internal":
@@ -553,9 +559,9 @@ def idx_r9(ctx):
             got = [render(t) for g, t, bi in cases]
             ok = got == [w]
         else:
-            oks = [t for g, t, bi in cases if t[0] == "agg" and t[1].endswith("Result::Ok")]
+            oks = [(g, t) for g, t, bi in cases if t[0] == "agg" and t[1].endswith("Result::Ok")]
             rest = [t for g, t, bi in cases if not (t[0] == "agg" and t[1].endswith(("Result::Ok", "Result::Err")))]
-            fm = common.first_match(ctx, oks[0][3][0]) if len(oks) == 1 and not rest else None
+            fm = common.first_match(ctx, oks[0][1][3][0], guard=oks[0][0]) if len(oks) == 1 and not rest else None
             got = fm
             ok = fm is not None and (fm[0], sorted(fm[1]), fm[2]) == (w[0], sorted(w[1]), w[2])
         n += 1
